@@ -27,6 +27,8 @@ L2 = [b"cc", b"dd"]
 
 
 def _fresh(data, name=NAME):
+    if name == "md5-dos2unix":  # legacy algorithm: the (short, NUL-free, printable) contents used here are text: CRLF -> LF, then md5
+        return hashlib.md5(data.replace(b"\r\n", b"\n")).hexdigest()
     return hashlib.new(name, data).hexdigest()
 
 
